@@ -71,14 +71,15 @@ theorem receive_udp_returns (af : Nat) (dest : Option Addr) (exp : Option Nat) (
     idx ≤ r.idx ∧ ∃ w, (dgrams script)[r.idx - idx]? = some (r.src, w) ∧
       (∀ d, dest = some d → SrcOk af r.src d) ∧
       header w.octets = some (r.msg.id, r.msg.flags) ∧ w.body.broken = none ∧
-      r.msg.question = w.body.question ∧ r.msg.ednsflags = w.body.ednsflags ∧
+      (questionSection w.octets r.msg.flags).2.isSome = true ∧
+      r.msg.question = (questionSection w.octets r.msg.flags).1 ∧ r.msg.ednsflags = w.body.ednsflags ∧
       (w.body.trailing = true → o.ignoreTrailing = true) ∧ (tc r.msg.flags && o.raiseOnTruncation) = false ∧
       (o.ignoreErrors = true → ∀ q, query = some q → isResponse q r.msg = true) := by
   obtain ⟨h1, w, h2, hj⟩ := receiveUdp_ok false af dest exp o query script now idx r h
   obtain ⟨hm, hf, hr⟩ := (judge_accept_iff _ _ _ _ _ _ _ _).1 hj
   simp only [Bool.false_and] at hf
-  obtain ⟨f1, f2, f3, f4, f5, f6⟩ := (fromWire_ok_iff w _ _ _).1 hf
-  refine ⟨h1, w, h2, ?_, f1, f4, f3, f2, f5, f6, ?_⟩
+  obtain ⟨f1, fq1, fq2, f2, f4, f5, f6⟩ := (fromWire_ok_iff w _ _ _).1 hf
+  refine ⟨h1, w, h2, ?_, f1, f4, fq1, fq2, f2, f5, f6, ?_⟩
   · intro d hd; subst hd; exact matchesDestination_true af _ d _ hm
   · intro hie q hq; subst hq; simpa [rejects, hie] using hr
 
@@ -122,7 +123,7 @@ theorem returned_is_response (q : Msg) (af : Nat) (dest : Addr) (timeout : Optio
     | error f => simp [hs, hr] at h
     | ok r' =>
       simp only [hs, hr] at h
-      obtain ⟨_, w, h2, h3, h4, h5, _, _, h8, h9, h10⟩ := receive_udp_returns af (some dest) _ o (some q) script now1 0 r' hr
+      obtain ⟨_, w, h2, h3, h4, h5, _, _, _, h8, h9, h10⟩ := receive_udp_returns af (some dest) _ o (some q) script now1 0 r' hr
       have hresp : isResponse q r'.msg = true := by
         cases hie : o.ignoreErrors
         · rw [hie] at h
@@ -151,6 +152,46 @@ theorem returned_header_octets (q : Msg) (af : Nat) (dest : Addr) (timeout : Opt
   obtain ⟨f1, _, f3⟩ := flags_octets o2 o3 h2 h3'
   rw [hf] at hqr hop
   exact ⟨f1.1 hqr, by rw [← f3, ← hop, opcodeOf_eq]⟩
+
+/-- **…and about the question octets.**  The question section of the datagram `udp()` returns — decoded by the
+model from the datagram's own octets after the header (length-prefixed labels, compression pointers that must
+point strictly backwards, 16-bit type and class, `qdcount` entries) — can be read to its end, is the question of
+the returned message, and agrees with the query's question as a set of (name up to ASCII case, class, type),
+unless one of the two documented exceptions applies (rcode FORMERR/SERVFAIL/NOTIMP/REFUSED with an empty question
+section; UPDATE). -/
+theorem returned_question_octets (q : Msg) (af : Nat) (dest : Addr) (timeout : Option Nat) (o : UOpts)
+    (blocks : List Nat) (script : List UEv) (now : Nat) (r : URet)
+    (h : udp false q af dest timeout o blocks script now = .ok r) :
+    ∃ w qs after, (dgrams script)[r.idx]? = some (r.src, w) ∧
+      questionSection w.octets r.msg.flags = (qs, some after) ∧ r.msg.question = qs ∧
+      ((ConstsC18.rcodeNoQuestion.contains (rcodeOf r.msg.flags r.msg.ednsflags) = true ∧ qs = []) ∨
+        opcodeOf q.flags = ConstsC18.opUpdate ∨
+        ((∀ x ∈ q.question, ∃ y ∈ qs, QEntry.same x y = true) ∧ (∀ y ∈ qs, ∃ x ∈ q.question, QEntry.same y x = true))) := by
+  have hret := returned_is_response q af dest timeout o blocks script now r h
+  unfold udp at h
+  cases hs : udpSend (expiration timeout now) blocks now with
+  | error e => simp [hs] at h
+  | ok now1 =>
+    cases hr : receiveUdp false af (some dest) (expiration timeout now) o (some q) script now1 0 with
+    | error f => simp [hs, hr] at h
+    | ok r' =>
+      simp only [hs, hr] at h
+      obtain ⟨_, w, h2, _, _, _, h6, h7, _⟩ := receive_udp_returns af (some dest) _ o (some q) script now1 0 r' hr
+      have hrr : r' = r := by
+        split at h
+        · simp at h
+        · simpa using h
+      subst hrr
+      cases hq : questionSection w.octets r'.msg.flags with
+      | mk qs after =>
+        rw [hq] at h6 h7
+        cases after with
+        | none => simp at h6
+        | some a =>
+          refine ⟨w, qs, a, by simpa using h2, hq, h7, ?_⟩
+          have := (isResponse_spec q r'.msg).1 hret.1
+          rw [h7] at this
+          exact this.2.2.2
 
 /-- **Spoofed, mismatched or malformed datagrams are skipped or raise as configured.**  At any point of the
 exchange, for the datagram at the head of the script:
@@ -225,18 +266,19 @@ theorem reply_after_spoofed_prefix (q : Msg) (af : Nat) (dest : Addr) (timeout :
 
 /-- the message the reader has in hand when it raises `Truncated`: header fields from the octets, the rest as
 far as the body got -/
-def partialMsg (w : Wire) (id flags : Nat) : Msg := ⟨id, flags, w.body.ednsflags, w.body.question⟩
+def partialMsg (w : Wire) (id flags : Nat) : Msg :=
+  ⟨id, flags, if (questionSection w.octets flags).2.isSome then w.body.ednsflags else 0, (questionSection w.octets flags).1⟩
 
 /-- **A genuine truncated reply is reported as truncation when asked; a forged one is not.**  With
 `raise_on_truncation`, a datagram from the queried address whose header octets carry TC and whose (possibly
 partial) message is a response to the query raises `Truncated` — with or without `ignore_errors`, whether the
-body parsed, was cut short (`FormError` family), or had trailing octets.  If that message is *not* a response to
+body parsed, was cut short (`FormError` family) in or after the question section, or had trailing octets.  If that message is *not* a response to
 the query, then under `ignore_errors` it is passed over (an injected TC packet cannot end the exchange). -/
 theorem truncation_reported (af : Nat) (dest : Option Addr) (exp : Option Nat) (o : UOpts) (q : Msg)
     (src : Addr) (w : Wire) (id flags : Nat) (rest : List UEv) (now idx : Nat)
     (hsrc : matchesDestination af src dest o.ignoreUnexpected = .ok true)
     (hrt : o.raiseOnTruncation = true) (hh : header w.octets = some (id, flags)) (htc : tc flags = true)
-    (hw : w.body.broken = none ∨ w.body.broken = some true) :
+    (hw : (questionSection w.octets flags).2.isSome = true → w.body.broken = none ∨ w.body.broken = some true) :
     (isResponse q (partialMsg w id flags) = true →
       receiveUdp false af dest exp o (some q) (.dgram src w :: rest) now idx = .error ⟨.truncated, idx + 1, now⟩) ∧
     (isResponse q (partialMsg w id flags) = false → o.ignoreErrors = true →
@@ -244,9 +286,11 @@ theorem truncation_reported (af : Nat) (dest : Option Addr) (exp : Option Nat) (
         receiveUdp false af dest exp o (some q) rest now (idx + 1)) := by
   have hf : fromWire w o.ignoreTrailing o.raiseOnTruncation false = .error (.truncated (partialMsg w id flags)) := by
     unfold fromWire partialMsg
-    rcases hw with hb | hb
-    · cases ht : w.body.trailing <;> cases o.ignoreTrailing <;> simp [hh, hb, htc, hrt]
-    · simp [hh, hb, htc, hrt]
+    cases hq : (questionSection w.octets flags).2.isSome
+    · simp [hh, hq, htc, hrt]
+    · rcases hw hq with hb | hb
+      · cases ht : w.body.trailing <;> cases o.ignoreTrailing <;> simp [hh, hq, hb, htc, hrt]
+      · simp [hh, hq, hb, htc, hrt]
   constructor
   · intro hr
     cases hie : o.ignoreErrors <;> simp [receiveUdp, judge, hsrc, hf, hie, rejects, hr]
@@ -423,7 +467,7 @@ theorem returned_is_response_tcp (q : Msg) (qwire : Bytes) (timeout : Option Nat
               | error e => cases e <;> simp [hf] at hp
               | ok m' =>
                 simp [hf] at hp; subst hp
-                obtain ⟨f1, _, _, f4, f5, _⟩ := (fromWire_ok_iff _ _ _ _).1 hf
+                obtain ⟨f1, _, _, _, f4, f5, _⟩ := (fromWire_ok_iff _ _ _ _).1 hf
                 exact ⟨hresp, hsent, frame_sound _ _ _ _ _ _ hframe, f1, f4, f5⟩
 
 /-! ## `udp_with_fallback` -/
@@ -501,7 +545,7 @@ theorem truncated_reply_falls_back (q : Msg) (qwire : Bytes) (af : Nat) (dest : 
     (hpre : ∀ p ∈ pre, Skipped false af (some dest) { o with raiseOnTruncation := true } (some q) p.1 p.2)
     (hsrc : matchesDestination af src (some dest) o.ignoreUnexpected = .ok true)
     (hh : header w.octets = some (id, flags)) (htc : tc flags = true)
-    (hw : w.body.broken = none ∨ w.body.broken = some true)
+    (hw : (questionSection w.octets flags).2.isSome = true → w.body.broken = none ∨ w.body.broken = some true)
     (hresp : isResponse q (partialMsg w id flags) = true) :
     udpWithFallback q qwire af dest timeout o blocks (pre.map (fun p => UEv.dgram p.1 p.2) ++ .dgram src w :: rest)
         body sevs revs now = asFallback now1 (tcp q qwire timeout o.ignoreTrailing body sevs revs now1) := by
@@ -610,7 +654,7 @@ theorem returned_is_response_async_tcp (q : Msg) (qwire : Bytes) (timeout : Opti
             | error e => cases e <;> simp [hf] at hp
             | ok m' =>
               simp [hf] at hp; subst hp
-              obtain ⟨f1, _, _, f4, f5, _⟩ := (fromWire_ok_iff _ _ _ _).1 hf
+              obtain ⟨f1, _, _, _, f4, f5, _⟩ := (fromWire_ok_iff _ _ _ _).1 hf
               exact ⟨hresp, rfl, frame_sound _ _ _ _ _ _ hframe, f1, f4, f5⟩
 
 /-- **`dns.asyncquery.udp_with_fallback`**: TCP only after a truncation, and then exactly one exchange with the
@@ -656,10 +700,10 @@ datagram from the queried address with the right id and question but a cut answe
 `ignore_errors`, although the genuine reply follows.  The code as it is (`coe = false`) skips it. -/
 theorem continue_on_error_variant_returns_malformed :
     let q : Msg := ⟨4660, 256, 0, [⟨[[119, 119, 119], []], 1, 1⟩]⟩
-    let hdr : Bytes := [18, 52, 129, 128, 0, 1, 0, 1, 0, 0, 0, 0]
+    let hdr : Bytes := [18, 52, 129, 128, 0, 1, 0, 1, 0, 0, 0, 0, 3, 119, 119, 119, 0, 0, 1, 0, 1]
     let qs : List QEntry := [⟨[[119, 119, 119], []], 1, 1⟩]
-    let bad : Wire := ⟨hdr, ⟨qs, 0, some true, false⟩⟩
-    let good : Wire := ⟨hdr, ⟨qs, 0, none, false⟩⟩
+    let bad : Wire := ⟨hdr, ⟨0, some true, false⟩⟩
+    let good : Wire := ⟨hdr, ⟨0, none, false⟩⟩
     let m : Msg := ⟨4660, 33152, 0, qs⟩
     let a : Addr := ⟨[49, 48, 46, 49, 46, 49, 46, 49], [53]⟩
     let o : UOpts := ⟨false, false, false, false, true⟩
@@ -675,20 +719,20 @@ datagram shorter than a header and a cut datagram precede the genuine reply, whi
 example :
     let q : Msg := ⟨4660, 256, 0, [⟨[[119, 119, 119], []], 1, 1⟩]⟩
     let qs : List QEntry := [⟨[[87, 87, 87], []], 1, 1⟩]
-    let hdr : Bytes := [18, 52, 129, 128, 0, 1, 0, 1, 0, 0, 0, 0]
-    let good : Wire := ⟨hdr, ⟨qs, 0, none, false⟩⟩
+    let hdr : Bytes := [18, 52, 129, 128, 0, 1, 0, 1, 0, 0, 0, 0, 3, 87, 87, 87, 0, 0, 1, 0, 1]
+    let good : Wire := ⟨hdr, ⟨0, none, false⟩⟩
     let a : Addr := ⟨[49, 48, 46, 49, 46, 49, 46, 49], [53]⟩
     let b : Addr := ⟨[49, 48, 46, 49, 46, 49, 46, 50], [53]⟩
     let o : UOpts := ⟨true, false, false, false, true⟩
     udp false q 2 a (some 9) o [1] [.dgram b good, .block 2, .dgram a ⟨18 :: 53 :: hdr.drop 2, good.body⟩,
-      .dgram a ⟨[18, 52, 129], good.body⟩, .dgram a ⟨hdr, ⟨qs, 0, some true, false⟩⟩, .dgram a good] 100
-      = .ok ⟨4, ⟨4660, 33152, 0, qs⟩, a, 103⟩ := by
+      .dgram a ⟨[18, 52, 129], good.body⟩, .dgram a ⟨hdr, ⟨0, some true, false⟩⟩, .dgram a ⟨hdr.take 15, good.body⟩, .dgram a good] 100
+      = .ok ⟨5, ⟨4660, 33152, 0, qs⟩, a, 103⟩ := by
   intro q qs hdr good a b o; decide
 
 /-- `truncation_reported`, `truncated_reply_falls_back`: hypotheses are satisfiable -/
 example :
     let q : Msg := ⟨7, 0, 0, []⟩
-    let w : Wire := ⟨[0, 7, 130, 0, 0, 0, 0, 0, 0, 0, 0, 0], ⟨[], 0, some true, false⟩⟩
+    let w : Wire := ⟨[0, 7, 130, 0, 0, 0, 0, 0, 0, 0, 0, 0], ⟨0, some true, false⟩⟩
     let a : Addr := ⟨[49, 46, 50, 46, 51, 46, 52], [53]⟩
     matchesDestination 2 a (some a) false = .ok true ∧ header w.octets = some (7, 33280) ∧ tc 33280 = true ∧
       isResponse q (partialMsg w 7 33280) = true := by
@@ -701,10 +745,19 @@ example :
     let o : UOpts := ⟨false, false, false, false, false⟩
     let hdrT : Bytes := [0, 7, 130, 0, 0, 0, 0, 0, 0, 0, 0, 0]
     let hdr : Bytes := [0, 7, 128, 0, 0, 0, 0, 0, 0, 0, 0, 0]
-    udpWithFallback q [0, 7, 0, 0, 0, 0, 0, 0, 0, 0, 0, 0] 2 a none o [] [.dgram a ⟨hdrT, ⟨[], 0, none, false⟩⟩]
-      (fun _ => ⟨[], 0, none, false⟩) [.accept 5, .block 1, .accept 100] [.data [0], .data (12 :: hdr.take 5), .data (hdr.drop 5)] 50
+    udpWithFallback q [0, 7, 0, 0, 0, 0, 0, 0, 0, 0, 0, 0] 2 a none o [] [.dgram a ⟨hdrT, ⟨0, none, false⟩⟩]
+      (fun _ => ⟨0, none, false⟩) [.accept 5, .block 1, .accept 100] [.data [0], .data (12 :: hdr.take 5), .data (hdr.drop 5)] 50
       = (0 :: 12 :: [0, 7, 0, 0, 0, 0, 0, 0, 0, 0, 0, 0], .ok ⟨⟨7, 32768, 0, []⟩, true, 1⟩) := by
   intro q a o hdrT hdr; decide
+
+/-- `returned_question_octets`: the question reader on real octets — two questions, the second name a compression
+pointer to the first; a pointer that does not point backwards and a name cut short are unreadable -/
+example :
+    let dg : Bytes := [0, 7, 128, 0, 0, 2, 0, 0, 0, 0, 0, 0, 3, 119, 119, 119, 2, 101, 120, 0, 0, 1, 0, 1, 192, 12, 0, 28, 0, 1]
+    questionSection dg 32768 = ([⟨[[119, 119, 119], [101, 120], []], 1, 1⟩, ⟨[[119, 119, 119], [101, 120], []], 1, 28⟩], some 30) ∧
+    (questionSection (dg.take 24 ++ [192, 24, 0, 28, 0, 1]) 32768).2 = none ∧
+    questionSection (dg.take 27) 32768 = ([⟨[[119, 119, 119], [101, 120], []], 1, 1⟩], none) := by
+  intro dg; decide
 
 /-- `framing_invariant`: a stream cut into three chunks with waits, under a deadline, and a tail -/
 example :
